@@ -6,7 +6,7 @@ q + delta(ri).  Every region loop fixes  delta(ri) = min_ci(ri) - wpsi_0(ri)  wh
 to at the top of the row; the two advance in lock-step, so the relation holds for every cell written in the row.
 """
 from ..cfront import AnalysisError
-from ..ir import fmt, walk_stmts, walk_expr, stmt_exprs, dotted, sub_blocks
+from ..ir import fmt, walk_stmts, walk_expr, stmt_exprs, dotted, sub_blocks, orient
 from .. import sym, kernels, symexec
 from ..sym import var as V, const as C, add, sub, tmin, tmax, scale
 from ..symexec import Exec, Env, subst_expr, norm_minmax, assigned_vars, reads_of
@@ -644,7 +644,8 @@ def _region_rules(ctx, R, amap, pdefs, affinity):
         if okc:
             cpath = conts[0][1]
             c = cpath[-1] if cpath else None
-            okc = c is not None and c[0] == 'bin' and c[1] == '>' and c[3] == ('attr', ('var', 'p'), 'max_step')
+            oc = orient(c, ('attr', ('var', 'p'), 'max_step')) if c is not None else None
+            okc = oc is not None and oc[0] == '<'          # p.max_step < d
             infst = [e for e in R.col.events if e[0] == 'store' and e[1] == cpath and e[3] == ('num', INF)]
             okc = okc and len(infst) == 1 and _pos_split(infst[0][2][2], amap) == ('cur', C(0))
         ctx.check(okc, 'R-REC', R.file, fname, 'region %s max_step guard' % R.name,
@@ -760,9 +761,10 @@ def _prune_region(ctx, R, F):
     last = path[-1]
     # roles, not names: ec = the carried variable the break compares the column with; ec_next = the variable copied into it after the column loop;
     # sc = the carried bound of the skip loop; smaller_found = the flag guarding the sc update
-    okb = last[0] == 'bin' and last[1] == '>=' and last[2] == ('var', 'j') and last[3][0] == 'var'
+    ol = orient(last, ('var', 'j'))
+    okb = ol is not None and ol[0] == '>=' and ol[2][0] == 'var'
     ctx.check(okb, 'R-PRUNE', R.file, fname, 'region %s prune break guard' % R.name, 'the early break must be guarded by `ci >= ec` (ec carried from the previous row); found %s' % fmt(last)[:100], brk[0][2].line)
-    ecv = last[3][1].split('@')[0] if okb else None
+    ecv = ol[2][1].split('@')[0] if okb else None
     R.ecv = ecv
     env_out = R.col_env or {}
     j1 = ('bin', '+', ('var', 'j'), ('num', 1))
@@ -845,20 +847,101 @@ def rule_pyx_direct_matrix(ctx, m):
         f = mod.funcs.get(fn)
         if f is None:
             raise AnalysisError('anchor vanished: dtw_cc.%s' % fn)
-        want = '((req_length == dtw_length) and (req_width == dtw.shape[1]))'
-        conds = [fmt(s.cond) for s in f.body if s.k == 'if']
-        direct = want in conds
-        expand = ('not (%s)' % want) in conds
-        env = {s.target[1]: fmt(s.value) for s in f.body if s.k == 'assign' and s.target[0] == 'var'}
-        okv = env.get('dtw_length') == '(dtw.shape[0] * dtw.shape[1])' and env.get('req_length', '').startswith('dtaidistancec_dtw.dtw_settings_wps_length(len(s1), len(s2)') \
-            and env.get('req_width', '').startswith('dtaidistancec_dtw.dtw_settings_wps_width(len(s1), len(s2)')
-        ex = [s for s in f.body if s.k == 'if' and fmt(s.cond) == 'not (%s)' % want]
-        oke = bool(ex) and len(ex[0].then) == 1 and ex[0].then[0].k == 'expr' and fmt(ex[0].then[0].value).startswith('dtaidistancec_dtw.%s(&(wps_view[(0, 0)]), &(dtw[(0, 0)]), len(s1), len(s2)' % expander)
-        dr = [s for s in f.body if s.k == 'if' and fmt(s.cond) == want]
-        okd = bool(dr) and len(dr[0].then) == 1 and fmt(dr[0].then[0].target) == 'wps' and fmt(dr[0].then[0].value) == 'dtw'
-        ctx.check(direct and expand and okv and oke and okd, 'R-MAP', mod.path, fn, 'direct-matrix decision',
+        # decided on one symbolic pass: the buffer handed to the writer is the caller's matrix exactly when  A: required length == rows*cols  and
+        # B: required width == cols ; the expander runs (compact buffer -> caller's matrix) exactly when that is false
+        from itertools import product as _product
+        mat = ('var', f.args[0].name if hasattr(f.args[0], 'name') else f.args[0])
+        shp = lambda k_: ('idx', ('attr', mat, 'shape'), ('num', k_))
+
+        def atom_of(c):
+            """('A'|'B', positive?) for an (in)equality between the required size and the matrix size"""
+            if not (c[0] == 'bin' and c[1] in ('==', '!=')):
+                return None
+            for x, y in ((c[2], c[3]), (c[3], c[2])):
+                if x[0] == 'call' and (dotted(x[1]) or '').endswith('dtw_settings_wps_length') and y in (('bin', '*', shp(0), shp(1)), ('bin', '*', shp(1), shp(0))):
+                    return 'A', c[1] == '=='
+                if x[0] == 'call' and (dotted(x[1]) or '').endswith('dtw_settings_wps_width') and y == shp(1):
+                    return 'B', c[1] == '=='
+            return None
+
+        def ev(c, asg):
+            if c[0] == 'bool':
+                return c[1]
+            if c[0] == 'un' and c[1] == 'not':
+                v = ev(c[2], asg)
+                return None if v is None else (not v)
+            if c[0] == 'bin' and c[1] in ('and', 'or'):
+                a_, b_ = ev(c[2], asg), ev(c[3], asg)
+                if a_ is None or b_ is None:
+                    return None
+                return (a_ and b_) if c[1] == 'and' else (a_ or b_)
+            at = atom_of(c)
+            if at is None:
+                return None
+            return asg[at[0]] if at[1] else (not asg[at[0]])
+        dex = Exec()
+        dex.run(f.body, Env())
+        wcalls = [(e, x) for e in dex.events for part in e[2:] if isinstance(part, tuple) for x in walk_expr(part)
+                  if x[0] == 'call' and (dotted(x[1]) or '') == 'dtaidistancec_dtw.' + writer]
+        ecalls = [(e, x) for e in dex.events for part in e[2:] if isinstance(part, tuple) for x in walk_expr(part)
+                  if x[0] == 'call' and (dotted(x[1]) or '') == 'dtaidistancec_dtw.' + expander]
+        # writer calls may also be the value of an assignment (d = writer(...)): look at the final environment as well
+        for v_ in (dex.events and []) or []:
+            pass
+        okw = oke = okd = False
+        detail = ''
+
+        def leaf_under(e, asg):
+            while e[0] == 'cond':
+                v = ev(e[1], asg)
+                if v is None:
+                    return None
+                e = e[2] if v else e[3]
+            return e
+        wr_args = None
+        wr_stmt = None
+        for s_ in walk_stmts(f.body):
+            for e_ in stmt_exprs(s_):
+                for x in walk_expr(e_):
+                    if x[0] == 'call' and (dotted(x[1]) or '') == 'dtaidistancec_dtw.' + writer:
+                        wr_args = x[2]
+                        wr_stmt = s_
+        # resolve the writer's buffer through the locals (view = wps; wps = matrix or compact buffer): the environment just before the call
+        fenv = Env()
+        if wr_stmt is not None:
+            iterspace_run_until(Exec(), f.body, fenv, wr_stmt)
+        if wr_args:
+            buf = wr_args[0]
+            base = buf[2][1] if buf[0] == 'un' and buf[1] == 'addr' and buf[2][0] == 'idx' else None
+            seen_ = set()
+            while base is not None and base[0] == 'var' and base[1] in fenv and base[1] not in seen_ and base != mat:
+                seen_.add(base[1])
+                base = fenv[base[1]]           # the view / local the buffer is reached through
+            if base is not None:
+                okw = True
+                okd = True
+                for a_, b_ in _product((True, False), repeat=2):
+                    lf = leaf_under(base, {'A': a_, 'B': b_})
+                    if lf is None or (lf == mat) != (a_ and b_):
+                        okd = False
+                        detail = 'with length-match=%s, width-match=%s the writer fills %s' % (a_, b_, fmt(lf)[:40] if lf is not None else '?')
+        if len(ecalls) == 1:
+            ev_, call_ = ecalls[0]
+            oke = True
+            for a_, b_ in _product((True, False), repeat=2):
+                # conditions that do not mention the two size tests (argument checks made earlier) do not decide
+                rel = [c_ for c_ in ev_[1] if any(atom_of(x) is not None for x in walk_expr(c_))]
+                conds = [ev(c_, {'A': a_, 'B': b_}) for c_ in rel]
+                taken = all(v is True for v in conds) if all(v is not None for v in conds) else None
+                if taken is None or taken != (not (a_ and b_)):
+                    oke = False
+                    detail = detail or 'with length-match=%s, width-match=%s the expander is %s' % (a_, b_, 'called' if taken else 'not called')
+            # expands the buffer the writer filled into the caller's matrix
+            dst = call_[2][1] if len(call_[2]) > 1 else None
+            oke = oke and dst is not None and dst[0] == 'un' and dst[1] == 'addr' and dst[2][0] == 'idx' and dst[2][1] == mat and wr_args is not None and call_[2][0] == subst_expr(wr_args[0], {}) 
+        ctx.check(okw and oke and okd, 'R-MAP', mod.path, fn, 'direct-matrix decision',
                   'the caller\'s matrix may serve as the compact buffer only when required length == rows*cols and required width == cols; otherwise a compact '
-                  'buffer is filled and expanded with %s exactly when that test is false (test=%s expand=%s sizes=%s call=%s direct=%s)' % (expander, direct, expand, okv, oke, okd), f.line)
+                  'buffer is filled and expanded with %s exactly when that test is false (writer=%s expand=%s direct=%s) %s' % (expander, okw, oke, okd, detail), f.line)
         calls = [c for s in walk_stmts(f.body) for e in stmt_exprs(s) for c in walk_expr(e) if c[0] == 'call' and (dotted(c[1]) or '') == 'dtaidistancec_dtw.' + writer]
         ok = len(calls) == 1 and fmt(calls[0][2][0]) == '&(wps_view[(0, 0)])'
         ctx.check(ok, 'R-MAP', mod.path, fn, 'writer call', 'the writer must fill the chosen buffer (wps_view)', f.line)
@@ -876,11 +959,12 @@ def rule_best_path_py(ctx, m):
     loop = loop[0]
     # roles: (i, j) from the loop guard `i > 0 and j > 0`; the selection variable and selector from `<c> = <argm>([3 candidates])`; the matrix is the first parameter
     lc_ = loop.cond
-    okg = lc_[0] == 'bin' and lc_[1] == 'and' and all(x[0] == 'bin' and x[1] == '>' and x[2][0] == 'var' and x[3] == ('num', 0) for x in (lc_[2], lc_[3]))
+    gs = [orient(x, ('num', 0)) for x in (lc_[2], lc_[3])] if lc_[0] == 'bin' and lc_[1] == 'and' else [None]
+    okg = all(g is not None and g[0] == '<' and g[2][0] == 'var' for g in gs)          # 0 < i and 0 < j
     ctx.check(okg, 'R-REC', pm.path, 'best_path', 'loop guard', 'back-tracking continues while i > 0 and j > 0', loop.line)
     if not okg:
         return
-    iv, jv = lc_[2][2][1], lc_[3][2][1]
+    iv, jv = gs[0][2][1], gs[1][2][1]
     mat = ('var', f.args[0])
     # one symbolic pass over the loop body: the selection `<selector>([three candidates])` with the candidates resolved to matrix reads, and the
     # position after the step as a function of the selected index
@@ -950,9 +1034,19 @@ def rule_best_path_py(ctx, m):
     g = pm.funcs.get('best_path2')
     if g is not None:
         lp = [s for s in g.body if s.k == 'while']
-        okg = bool(lp) and fmt(lp[0].cond) == '((r > 0) and (c > 0))'
-        reads = sorted({fmt(x) for s in walk_stmts(lp[0].body) if s.k == 'if' for x in walk_expr(s.cond) if x[0] == 'idx' and x[1] == ('var', 'm')}) if lp else []
-        okg = okg and reads == ['m[((r - 1), (c - 1))]', 'm[((r - 1), c)]', 'm[(r, (c - 1))]']
+        okg = False
+        if lp and lp[0].cond[0] == 'bin' and lp[0].cond[1] == 'and':
+            g2 = [orient(x, ('num', 0)) for x in (lp[0].cond[2], lp[0].cond[3])]
+            if all(g_ is not None and g_[0] == '<' and g_[2][0] == 'var' for g_ in g2):
+                rv, cv_ = g2[0][2], g2[1][2]
+                m1 = lambda v: ('bin', '-', v, ('num', 1))
+                byarr = {}
+                for s in walk_stmts(lp[0].body):
+                    if s.k == 'if':
+                        for x in walk_expr(s.cond):
+                            if x[0] == 'idx' and x[1][0] == 'var':
+                                byarr.setdefault(x[1], set()).add(x[2])
+                okg = any(rd == {('tuple', (m1(rv), m1(cv_))), ('tuple', (m1(rv), cv_)), ('tuple', (rv, m1(cv_)))} for rd in byarr.values())
         ctx.check(okg, 'R-REC', pm.path, 'best_path2', 'step table', 'best_path2 must consider exactly the three DTW predecessors while r > 0 and c > 0', g.line)
 
 
@@ -1241,8 +1335,12 @@ def rule_dual(ctx, m):
                 return e
             if e[0] == 'num' and isinstance(e[1], float) and abs(e[1]) == INF and flip:
                 return ('num', -e[1])
-            if e[0] == 'bin' and e[1] in ('<', '>', '<=', '>=') and e[3] == ('num', 0) and flip:
-                return ('bin', {'<': '>', '>': '<', '<=': '>=', '>=': '<='}[e[1]], ex(e[2]), e[3])
+            if e[0] == 'bin' and e[1] in ('<', '>', '<=', '>=') and ('num', 0) in (e[2], e[3]):
+                # sign tests are read as `x OP 0` whichever way they are written; the dual flips OP
+                o = orient(e, lambda y: y != ('num', 0))
+                if o is not None:
+                    op_ = {'<': '>', '>': '<', '<=': '>=', '>=': '<='}[o[0]] if flip else o[0]
+                    return ('bin', op_, ex(o[1]), ('num', 0))
             if e[0] == 'call':
                 nm = dotted(e[1]) or ''
                 if flip:
@@ -1302,7 +1400,9 @@ def rule_wps_epilogue(ctx, m):
         for x in walk_expr(val):
             if x[0] == 'cond':
                 for c in kern._conj([x[1]]):
-                    if c[0] == 'bin' and c[1] in ('>', '>=') and kern._mentions(c[3], {'max_dist'}) and not kern._mentions(c[2], {'max_dist'}) \
+                    oc = orient(c, lambda e: not kern._mentions(e, {'max_dist'}))
+                    c = ('bin', oc[0], oc[1], oc[2]) if oc is not None else c
+                    if oc is not None and c[1] in ('>', '>=') and kern._mentions(c[3], {'max_dist'}) and not kern._mentions(c[2], {'max_dist'}) \
                             and c[3] != ('num', 0) and kern._conv_class(c[3], {'max_dist'}) is not None and not any(y[0] == 'call' and (dotted(y[1]) or '').startswith('ub_euclidean') for y in walk_expr(c[3])):
                         found = True
                         a = c[2]
@@ -1554,8 +1654,13 @@ def _bt_roles(f, loops):
     shape of the code (the guard `rip > .. and cip > 0`, the current-cell read wps[RW + Q], the move `RW = RWP`), not from the spelling."""
     roles = {}
     c = loops[0].cond
-    if c[0] == 'bin' and c[1] == 'and' and c[2][0] == 'bin' and c[2][2][0] == 'var' and c[3][0] == 'bin' and c[3][2][0] == 'var':
-        roles['rip'], roles['cip'] = c[2][2][1], c[3][2][1]
+    if c[0] == 'bin' and c[1] == 'and':
+        # `rip > X and cip > 0`: the counters are the greater sides
+        g1, g2 = orient(c[2], lambda e: e[0] == 'var'), orient(c[3], lambda e: e[0] == 'var')
+        if g1 is not None and g1[0] == '<' and g1[2][0] == 'var':
+            g1 = ('>', g1[2], g1[1])            # both sides are variables: the counter is the greater one
+        if g1 is not None and g2 is not None and g1[0] == '>' and g2[0] == '>':
+            roles['rip'], roles['cip'] = g1[1][1], g2[1][1]
     # RW = RWP assignment inside the loop
     for s_ in walk_stmts(loops[0].body):
         if s_.k == 'assign' and s_.target[0] == 'var' and s_.value[0] == 'var' and s_.d.get('aug') is None:
@@ -1606,7 +1711,7 @@ def rule_best_path_moves(ctx, m):
             Delta = shifts[k]
             # guard
             c = lp.cond
-            okg = c[0] == 'bin' and c[1] == 'and' and c[2] == ('bin', '>', ('var', ro['rip']), guards_want[k]) and c[3] == ('bin', '>', ('var', ro['cip']), ('num', 0))
+            okg = c[0] == 'bin' and c[1] == 'and' and orient(c[2], ('var', ro['rip'])) == ('>', ('var', ro['rip']), guards_want[k]) and orient(c[3], ('var', ro['cip'])) == ('>', ('var', ro['cip']), ('num', 0))
             ctx.check(okg, 'R-MAP', f.file, fn, 'loop %s guard' % names[k], 'the %s loop must run while rip > %s and cip > 0; found %s' % (names[k], fmt(guards_want[k]), fmt(c)), lp.line)
             chain = [s for s in lp.body if s.k == 'if' and reads_of(s.cond, 'wps') and len([x for x in walk_expr(s.cond) if x[0] == 'idx' and x[1] == ('var', 'wps')]) >= 2]
             if not chain:
@@ -1633,12 +1738,16 @@ def rule_best_path_moves(ctx, m):
                 out = []
                 for x in walk_expr(cond):
                     if x[0] == 'bin' and x[1] in ('<=', '>=', '<', '>'):
-                        l, r = x[2], x[3]
+                        # read the test with the plain cell on the left and the (cell + penalty) on the right, whichever way it is written
+                        ox = orient(x, lambda e: e[0] == 'idx' and e[1] == ('var', 'wps'))
+                        if ox is None:
+                            continue
+                        op_, l, r = ox
                         pen = False
                         if r[0] == 'bin' and r[1] == '+' and r[3] == ('attr', ('var', 'p'), 'penalty'):
                             r, pen = r[2], True
                         if l[0] == 'idx' and l[1] == ('var', 'wps') and r[0] == 'idx' and r[1] == ('var', 'wps'):
-                            out.append((x[1], pos(l[2]), pos(r[2]), pen))
+                            out.append((op_, pos(l[2]), pos(r[2]), pen))
                 return out
             want_op = '>=' if maxv else '<='
             c1 = cmp_pairs(arms[0][0])
@@ -1650,6 +1759,9 @@ def rule_best_path_moves(ctx, m):
                       'with a per-row layout shift of %d the diagonal predecessor is at (previous row, Q%+d), up at (previous row, Q%+d), left at (this row, Q-1); '
                       'the diagonal is taken when it is %s both others + penalty (ties go diagonal); found %s' % (Delta, Delta - 1, Delta, want_op, c1), ch.line)
             c2 = cmp_pairs(arms[1][0])
+            # both operands are plain cells: read the test with `left` first whichever way it is written
+            fl_ = {'<': '>', '<=': '>=', '>': '<', '>=': '<='}
+            c2 = [(fl_[o], b, a, pen) if (a == up and b == left) else (o, a, b, pen) for o, a, b, pen in c2]
             ok2 = len(c2) >= 1 and all(o == want_op and a == left and b == up for o, a, b, pen in c2)
             ctx.check(ok2, 'R-MAP', f.file, fn, 'loop %s left/up test' % names[k], 'the second test must compare left (this row, Q-1) with up (previous row, Q%+d); found %s' % (Delta, c2), ch.line)
 
@@ -1684,9 +1796,10 @@ def rule_best_path_markers(ctx, m):
     if not loops:
         raise AnalysisError('unrecognised shape: dtw.best_path without a while loop')
     lc_ = loops[0].cond
-    if not (lc_[0] == 'bin' and lc_[1] == 'and' and lc_[2][0] == 'bin' and lc_[2][2][0] == 'var' and lc_[3][0] == 'bin' and lc_[3][2][0] == 'var'):
+    gs_ = [orient(x, ('num', 0)) for x in (lc_[2], lc_[3])] if lc_[0] == 'bin' and lc_[1] == 'and' else [None]
+    if not all(g is not None and g[2][0] == 'var' for g in gs_):
         raise AnalysisError('unrecognised shape: dtw.best_path loop guard')
-    cur_idx = ('tuple', (lc_[2][2], lc_[3][2]))
+    cur_idx = ('tuple', (gs_[0][2], gs_[1][2]))
     cur_py = lambda e: e[0] == 'idx' and e[1] == ('var', f.args[0]) and e[2] == cur_idx
     knows = any(_is_marker_test(s.cond, cur_py) for s in walk_stmts(f.body) if s.k == 'if')
 
@@ -1786,6 +1899,8 @@ def rule_pyx_path_assembly(ctx, m):
             else:
                 # k = n; while k > 0: k -= 1; use k
                 c_ = lp.cond
+                oc_ = orient(c_, lambda e: e[0] == 'var')
+                c_ = ('bin',) + oc_ if oc_ is not None else c_
                 kv = c_[2] if c_[0] == 'bin' and c_[2][0] == 'var' else None
                 first = body[0] if body else None
                 dec_first = first is not None and first.k == 'assign' and first.target == kv and first.value == ('bin', '-', kv, ('num', 1))
@@ -1851,7 +1966,7 @@ def rule_best_path_prob_moves(ctx, m):
     for k, lp in enumerate(loops):
         Delta = shifts[k]
         c = lp.cond
-        okg = c[0] == 'bin' and c[1] == 'and' and c[2] == ('bin', '>', ('var', ro['rip']), guards_want[k]) and c[3] == ('bin', '>', ('var', ro['cip']), ('num', 0))
+        okg = c[0] == 'bin' and c[1] == 'and' and orient(c[2], ('var', ro['rip'])) == ('>', ('var', ro['rip']), guards_want[k]) and orient(c[3], ('var', ro['cip'])) == ('>', ('var', ro['cip']), ('num', 0))
         ctx.check(okg, 'R-MAP', f.file, fn, 'loop %s guard' % names[k], 'the %s loop must run while rip > %s and cip > 0; found %s' % (names[k], fmt(guards_want[k]), fmt(c)), lp.line)
         # candidates: first assignment probs[k] = prev - wps[...]
         cand = {}
@@ -1921,9 +2036,10 @@ def rule_wps_exits(ctx, m):
         for e in info['epilogue'].events:
             if e[0] == 'loop' and e[2].k == 'loop':
                 lp = e[2]
-                if lp.cond is not None and lp.cond[0] == 'bin' and lp.cond[1] == '>' and len(lp.init) == 1 and lp.init[0].k == 'assign' \
+                oc = orient(lp.cond, lp.init[0].target) if lp.cond is not None and len(lp.init) == 1 and lp.init[0].k == 'assign' else None
+                if oc is not None and oc[0] == '>' \
                         and any(t.k == 'assign' and t.target == ('var', regs[-1].wvar) and t.value == ('bin', '-', ('var', regs[-1].wvar), ('num', 1)) for t in lp.body):
-                    n = sym.from_ir(('bin', '-', lp.init[0].value, lp.cond[3]), atom=AM())
+                    n = sym.from_ir(('bin', '-', lp.init[0].value, oc[2]), atom=AM())
                     scans.append((lp, n))
         if not scans:
             ctx.undecided('R-CLAMP', '%s psi_2e scan' % fname, 'scan loop not recognised')
